@@ -8,6 +8,9 @@
 //! canonical report (manifest content, validation state and validation codes). For streams without a magic number
 //! (SVG, .c2pa, garbage) only "no panic" is demanded.
 //!
+//! After a missed independently seeded change (big-endian TIFF magic no longer recognised): one unsigned + one signed subject per
+//! magic-number VARIANT of the sniffer (magic_variants()). /tmp/seed-C11/OUT/patch.diff -> keys `hint-changes-result container=tiff ...`.
+//!
 //! Mutants caught (quick tier, unchanged tree: 0 violations):
 //!   /verif/mutants/C11-prefer-hint.diff (format_from_stream returns the hint whenever the hint names a known format):
 //!       2000+ violations, keys `hint-changes-result container=<c> kind=<k> hint-family=<f>`
@@ -89,6 +92,41 @@ struct Subject {
     data: Vec<u8>,
 }
 
+static SKIPPED: std::sync::Mutex<Vec<String>> = std::sync::Mutex::new(Vec::new());
+
+/// One asset per alternative of the content sniffer (jumbf_io::container_from_stream) that the per-format kit assets
+/// do not already cover: TIFF byte order x classic/BigTIFF, GIF87a, BMFF brands, ID3-prefixed FLAC, PDF.
+/// (Covered by assets::all(): JPEG, PNG, GIF89a, TIFF II, JXL container, RIFF WAVE/WEBP/AVI, ftyp isom/heic, fLaC,
+/// ID3+MPEG, bare MPEG frame sync. A bare JPEG XL codestream FF 0A has no branch in the sniffer.)
+fn magic_variants() -> Vec<(String, &'static str, Vec<u8>)> {
+    let mut v: Vec<(String, &'static str, Vec<u8>)> = vec![];
+    for (name, data) in kit::embed::tiff_variants() {
+        if name.ends_with("-1page") {
+            v.push((format!("magic-{name}"), "image/tiff", data));
+        }
+    }
+    let mut g = assets::gif();
+    g[3..6].copy_from_slice(b"87a");
+    v.push(("magic-gif87a".into(), "image/gif", g));
+    let brand = |base: Vec<u8>, major: &[u8; 4], compat: &[u8; 4]| {
+        let mut d = base;
+        d[8..12].copy_from_slice(major);
+        d[16..20].copy_from_slice(compat);
+        d
+    };
+    v.push(("magic-bmff-mp42".into(), "video/mp4", brand(assets::mp4(false), b"mp42", b"mp42")));
+    v.push(("magic-bmff-qt".into(), "video/quicktime", brand(assets::mp4(false), b"qt  ", b"qt  ")));
+    v.push(("magic-bmff-m4a".into(), "audio/mp4", brand(assets::mp4(false), b"M4A ", b"M4A ")));
+    v.push(("magic-bmff-avif".into(), "image/avif", brand(assets::heic(), b"avif", b"mif1")));
+    v.push(("magic-bmff-mif1".into(), "image/heif", brand(assets::heic(), b"mif1", b"mif1")));
+    // FLAC behind an (empty) ID3v2 tag: the sniffer looks past the tag for fLaC
+    let mut f = b"ID3\x03\x00\x00\x00\x00\x00\x00".to_vec();
+    f.extend(assets::flac());
+    v.push(("magic-id3-flac".into(), "audio/flac", f));
+    v.push(("magic-pdf".into(), "application/pdf", b"%PDF-1.4\n1 0 obj\n<< /Type /Catalog >>\nendobj\ntrailer\n<< /Root 1 0 R >>\n%%EOF\n".to_vec()));
+    v
+}
+
 fn subjects(thorough: bool) -> Vec<Subject> {
     let s = sdk::fixture_signer("ed25519");
     let mut v = vec![];
@@ -105,6 +143,25 @@ fn subjects(thorough: bool) -> Vec<Subject> {
         v.push(Subject { id: format!("{}/signed", a.name), mime: a.mime, data: sdk::sign_simple(s.as_ref(), a.mime, &a.data, &[]) });
         if matches!(tamper::family(a.mime), "jpeg" | "png" | "gif" | "jxl") {
             v.push(Subject { id: format!("{}/signed-box", a.name), mime: a.mime, data: sdk::sign_simple(s.as_ref(), a.mime, &a.data, &[super::c01::COMPRESS]) });
+        }
+    }
+    // one signed subject per MAGIC-NUMBER VARIANT the sniffer can distinguish (not just one per format)
+    for (id, mime, data) in magic_variants() {
+        v.push(Subject { id: format!("{id}/unsigned"), mime, data: data.clone() });
+        let mut b = sdk::builder(sdk::ctx(), super::c01::DEF);
+        let signed = par::guard(|| sdk::sign(&mut b, s.as_ref(), mime, &data));
+        let ok = match &signed {
+            Ok(Ok((out, _))) => match sdk::read(sdk::ctx(), mime, out) {
+                Ok(r) if sdk::state_name(r.validation_state()) != "Invalid" => Ok(out.clone()),
+                Ok(_) => Err("signed but reads Invalid".to_string()),
+                Err(e) => Err(format!("signed but read fails: {}", sdk::err_kind(&e))),
+            },
+            Ok(Err(e)) => Err(format!("cannot be signed: {}", sdk::err_kind(e))),
+            Err(p) => Err(format!("signing panicked: {p}")),
+        };
+        match ok {
+            Ok(out) => v.push(Subject { id: format!("{id}/signed"), mime, data: out }),
+            Err(why) => SKIPPED.lock().unwrap().push(format!("{id}: {why}")),
         }
     }
     // a sidecar store read as a stream of its own, and streams that identify nothing
@@ -220,5 +277,6 @@ pub fn run(run: &Run, replay: Option<&Value>) {
     run.sample(json!({"subject": subs[1].id, "hints": hs.iter().take(12).collect::<Vec<_>>(), "baseline": short(&bases[1])}));
     run.sample(json!({"subject": subs[0].id, "baseline": short(&bases[0])}));
     run.extra("hints", json!(hs.len()));
+    run.extra("magic_variants_not_signed", json!(*SKIPPED.lock().unwrap()));
     run.extra("subjects", json!(subs.iter().map(|s| s.id.clone()).collect::<Vec<_>>()));
 }
